@@ -92,3 +92,10 @@ Definition run_C05 (op : N) (s : str) : val :=
   | 4%N => VL [VI (Z.of_nat (fst (gc_counts s))); VI (Z.of_nat (snd (gc_counts s)))]
   | _ => VS (reverse s)
   end.
+
+(* linear-time evaluation of rc for very long inputs (stdlib rev is quadratic); C05_Lemmas.run_C05_lin_eq proves it equal *)
+Definition run_C05_lin (op : N) (s : str) : val :=
+  match op with
+  | 1%N => VS (complement (rev_append s []))
+  | _ => run_C05 op s
+  end.
